@@ -101,6 +101,9 @@ def rule_a(ctx, rid, body_filter):
                    "from the rendering entry points", how="auto")
             continue
         row = table.get(key)
+        if not row and table.get(s.key_nog):
+            key = s.key_nog
+            row = table.get(key)
         if row:
             seen_per_key[key] = seen_per_key.get(key, 0) + 1
             if seen_per_key[key] <= row[1]:
@@ -298,9 +301,13 @@ def rule_b(ctx, rid, body_filter):
             for bb, t in calls:
                 a0 = norm(b.expr(t["args"][0]))
                 o = origin(b, t["args"][0])
+                c0 = norm(b.canon(t["args"][0]))
                 if o and o[0] == "call" and callee_method(o[1]) == "index" and "RangeFrom{1_usize}" in norm(b.expr(o[1]["args"][1])) \
                         and ("arg", 1) in b.atoms(o[1]["args"][0], through_calls=False):
                     drivers.add("selector-length")
+                elif c0 in ("&(<impl [T]>::split_first(&arg1) as Some).1", "(<impl [T]>::split_first(&arg1) as Some).1",
+                            "&(<impl [T]>::split_last(&arg1) as Some).1", "(<impl [T]>::split_last(&arg1) as Some).1"):
+                    drivers.add("selector-length")  # `let (first, rest) = comps.split_first()`: rest is a strict sub-slice
                 else:
                     drivers.add("same-selector(%s)" % a0[:40])
             if drivers == {"selector-length"}:
